@@ -462,6 +462,9 @@ pub struct Exec {
     pub follower_rx: Option<tokio::sync::mpsc::Receiver<Frame>>,
     pub follower_expect: Vec<Frame>,
     pub flushed: bool,
+    /// highest clock value the store has seen (ids are drawn from scru128's generator, which
+    /// restarts below earlier ids once the clock is more than 10 s behind its last timestamp)
+    pub clock_high: u64,
     pub crashed_pairs: HashSet<(Scru128Id, String)>,
     pub plan_follower: bool,
     /// every accepted append in order (stored and ephemeral), for stream followers of other engines
@@ -491,6 +494,7 @@ impl Exec {
             follower_rx: None,
             follower_expect: Vec::new(),
             flushed: false,
+            clock_high: 0,
             crashed_pairs: HashSet::new(),
             plan_follower: follower,
             accepted_log: Vec::new(),
@@ -769,6 +773,7 @@ impl Exec {
         } else {
             self.w.ctrl.set_now(now);
         }
+        self.clock_high = self.clock_high.max(now).max(cur);
         self.model.set_now(now);
         Ok(())
     }
@@ -875,8 +880,15 @@ impl Exec {
             }
             Op::ClockBack { ms } => {
                 let now = self.w.ctrl.now().saturating_sub(*ms).max(EPOCH_MS);
-                self.set_clock(now)?;
-                self.w.probe("clock:back");
+                // C01 quantifies over clock advances; small backward steps are injected as a
+                // fault, but only inside the id generator's rollback allowance (10 s): beyond it
+                // scru128 restarts its ids at the earlier timestamp by design
+                if self.clock_high.max(self.w.ctrl.now()).saturating_sub(now) >= 9_000 {
+                    self.w.probe("clock:back-capped");
+                } else {
+                    self.set_clock(now)?;
+                    self.w.probe("clock:back");
+                }
             }
             Op::GcStep => {
                 self.gc_step()?;
